@@ -1,6 +1,7 @@
 """C17 - PKCS#7 / PKCS#12 containers return what was put in, only to the right holder."""
 ID = "C17"
 PROPS = "Props/C17.v"
+COQ_TIMEOUT = 5400   # Coq build of this property incl. rebuilt dependencies; generous: on a loaded machine a rebuild after an upstream edit took > 1500 s
 GEN = ["pkcs7", "rc2tables", "dec"]
 LEGS = [{"driver": "c17", "runner": ("p12", "Extract/ExtractP12.v", "P12w"), "timeout": 3000},
         {"driver": "c17m", "runner": ("p12", "Extract/ExtractP12.v", "P12w"), "timeout": 3000}]
